@@ -24,6 +24,24 @@ def main(argv=None):
     from .report import Ctx
 
     pid = args.prop.upper()
+
+    class _Quiet:  # a reader that closes the pipe early must not change the verdict
+        def __init__(self, s):
+            self.s = s
+
+        def write(self, x):
+            try:
+                return self.s.write(x)
+            except BrokenPipeError:
+                return len(x)
+
+        def flush(self):
+            try:
+                self.s.flush()
+            except BrokenPipeError:
+                pass
+
+    sys.stdout = _Quiet(sys.stdout)
     try:
         prog = Program(model.REPO)
         ctx = Ctx(pid, args.tier, prog, quiet=args.quiet)
@@ -35,6 +53,12 @@ def main(argv=None):
             selftest.run_for_property(ctx, pid)
         rc = ctx.finish()
     except AnalysisError as e:
+        if "ctx" in locals() and ctx.violations:
+            # a violation established before the analysis lost its footing stands on its own
+            ctx.note("analysis stopped early: %s" % e)
+            print("note: analysis stopped after a violation was established (%s)" % str(e)[:200])
+            ctx.rule_min = {}
+            return ctx.finish()
         print("ANALYSIS-ERROR property=%s %s: %s" % (pid, type(e).__name__, e))
         return 2
     except Exception as e:  # a crash of the checker is a broken analysis, never a verdict
